@@ -378,7 +378,7 @@ class BufrMessage(object):
                     )
                 else:
                     section_data.append(
-                        len(subset_indices) if parameter.name == 'n_subsets'
+                        len(set(subset_indices)) if parameter.name == 'n_subsets'
                         else parameter.value
                     )
             data.append(section_data)
